@@ -3,8 +3,8 @@ package main
 import (
 	"bytes"
 	"fmt"
-	"os"
 	"math/big"
+	"os"
 
 	"github.com/ontio/ontology/common"
 	nutils "github.com/ontio/ontology/smartcontract/service/native/utils"
@@ -20,11 +20,11 @@ type ent struct {
 }
 
 type pg struct {
-	r   *hx.Rand
-	a   asm
-	st  []ent
-	alt []ent
-	sys bool // syscalls allowed (V lines); X lines stay inside the modelled opcode subset
+	r    *hx.Rand
+	a    asm
+	st   []ent
+	alt  []ent
+	sys  bool // syscalls allowed (V lines); X lines stay inside the modelled opcode subset
 	calm bool // quick tier: values known to kill the process (cycle invisible to the detector handed to Native.Invoke: ~8 s per case) stay rare
 }
 
@@ -916,8 +916,10 @@ func sinkOf(f func(s *common.ZeroCopySink)) []byte {
 	return s.Bytes()
 }
 
-func vb(s *common.ZeroCopySink, b []byte)  { s.WriteVarBytes(b) }
-func vu(s *common.ZeroCopySink, v uint64)  { s.WriteVarBytes(common.BigIntToNeoBytes(new(big.Int).SetUint64(v))) }
+func vb(s *common.ZeroCopySink, b []byte) { s.WriteVarBytes(b) }
+func vu(s *common.ZeroCopySink, v uint64) {
+	s.WriteVarBytes(common.BigIntToNeoBytes(new(big.Int).SetUint64(v)))
+}
 func adr(s *common.ZeroCopySink, i int)    { s.WriteVarBytes(acct(i).Address[:]) }
 func rawAdr(s *common.ZeroCopySink, i int) { s.WriteBytes(acct(i).Address[:]) }
 
@@ -1288,7 +1290,9 @@ func corpus() []string {
 	x(0, (&asm{}).pushI(1).op(opDCALL))
 	x(0, (&asm{}).op(opNEWMAP, opDUP).pushI(1).pushI(2).op(opSETITEM, opDUP, opKEYS))
 	// the known node-killing case (recorded under C14): Native.Invoke with a=[1,a] as argument
-	cyc := func() *asm { return (&asm{}).pushI(0).op(opNEWARRAY, opDUP).pushI(1).op(opAPPEND, opDUP, opDUP, opAPPEND) }
+	cyc := func() *asm {
+		return (&asm{}).pushI(0).op(opNEWARRAY, opDUP).pushI(1).op(opAPPEND, opDUP, opDUP, opAPPEND)
+	}
 	ontA := nutils.OntContractAddress
 	v(200000, cyc().pushBytes([]byte("transfer")).pushBytes(ontA[:]).pushI(0).syscall("Ontology.Native.Invoke"))
 	v(200000, cyc().syscall("System.Runtime.Serialize"))
